@@ -3,7 +3,7 @@
 EXTENDS DemoHi, Json, TLCExt
 
 CONSTANTS MaxCalls,   \* write_snap / write_msg calls per recording
-          HiGaps,     \* tick = last tick + gap (gaps <= 0 must be refused)
+          HiGaps,     \* tick = last tick + Gap(i) (gaps <= 0 must be refused); indices: no negative numbers in cfg files
           WorldIds,   \* worlds offered, see W
           MsgIds      \* game messages offered (realised by the harness)
 
@@ -19,10 +19,13 @@ W(i) ==
     [] i = 7 -> {O(4, 7, 3), O(5, 7, 1), O(2, 1, 0)}
     [] i = 8 -> {O(5, 7, 1)}
 
+Gap(i) == CASE i = 1 -> 0 [] i = 2 -> 1 [] i = 3 -> 125 [] i = 4 -> 250 [] i = 5 -> 251 [] i = 6 -> -3
+            [] i = 7 -> 2147483000
+
 NNew == phase = "idle" /\ Step([a |-> "new"])
 NSnap == /\ nw < MaxCalls
          /\ \E g \in HiGaps, i \in WorldIds :
-              wlast <= 2147483647 - g /\ Step([a |-> "snap", t |-> wlast + g, world |-> W(i)])
+              (IF Gap(g) <= 0 THEN TRUE ELSE wlast <= 2147483647 - Gap(g)) /\ Step([a |-> "snap", t |-> wlast + Gap(g), world |-> W(i)])
 NMsg == nw < MaxCalls /\ \E m \in MsgIds : Step([a |-> "msg", m |-> m])
 Next == NNew \/ NSnap \/ NMsg
 Spec == Init /\ [][Next]_vars
